@@ -170,6 +170,28 @@ Definition server_state (fl : Negotiate.flight) : srv_state :=
   else
     mkSrv vers (Negotiate.h_suite first) (match Negotiate.f_skx fl with Some c => c | None => 0 end) (Negotiate.h_alpn first) false.
 
+(* ---- TLS <= 1.2 session resumption (ticket or session id), handshake_client.go:914-986 processServerHello with
+        serverResumedSession() true: pickCipherSuite, compression, checkALPN and c.clientProtocol = serverHello.alpnProtocol
+        exactly as in a full handshake (the protocol is negotiated afresh, never taken from the session), then the three
+        session checks. The client reports no curve (no key exchange took place). ---- *)
+Record session12 := mkSess12 { se_vers : N; se_suite : N; se_ems : bool }.
+
+Definition client_resume12 (e : Negotiate.env) (v : Negotiate.client_view) (se : session12) (vers : N)
+           (h : Negotiate.hello_msg) (h_ems crypto_ok : bool) : Negotiate.outcome :=
+  if negb (Negotiate.memN (Negotiate.h_suite h) (Negotiate.cv_suites v)
+           && Negotiate.memN (Negotiate.h_suite h) (Negotiate.e_impl12 e)) then Negotiate.Abort Negotiate.a_handshake_failure (* :917 *)
+  else if negb (Negotiate.h_comp h =? 0) then Negotiate.Abort Negotiate.a_unexpected_message                                (* :921 *)
+  else if negb (Negotiate.check_alpn (Negotiate.cv_alpn v) (Negotiate.h_alpn h)) then Negotiate.Abort Negotiate.a_unsupported_extension (* :944 *)
+  else if negb (se_vers se =? vers) then Negotiate.Abort Negotiate.a_handshake_failure                                      (* :956 *)
+  else if negb (se_suite se =? Negotiate.h_suite h) then Negotiate.Abort Negotiate.a_handshake_failure                      (* :961 *)
+  else if negb (Bool.eqb (se_ems se) h_ems) then Negotiate.Abort Negotiate.a_handshake_failure                              (* :967 *)
+  else if negb crypto_ok then Negotiate.Abort Negotiate.a_bad_record_mac                                                    (* Finished *)
+  else Negotiate.Complete (Negotiate.mkState vers (Negotiate.h_suite h) 0 (Negotiate.h_alpn h) false true).
+
+(* the server's view of an abbreviated handshake (handshake_server.go doResumeHandshake): the values of its ServerHello *)
+Definition server_state_resumed12 (vers : N) (h : Negotiate.hello_msg) : srv_state :=
+  mkSrv vers (Negotiate.h_suite h) 0 (Negotiate.h_alpn h) true.
+
 (* ---- server name ---- *)
 (* one element of uconn.Extensions as far as the server name is concerned *)
 Inductive sni_item := SniExt (name : bytes)   (* an SNIExtension with this ServerName (after ApplyPreset's fill-in) *)
